@@ -781,3 +781,8 @@ mod test {
         .is_none());
     }
 }
+
+// Verification hook (compiled only by `cargo kani`, which sets `--cfg kani`).
+#[cfg(kani)]
+#[path = "/verif/harness/catch_perf.rs"]
+pub(crate) mod verif_harness;
